@@ -633,3 +633,65 @@ func runArg(x *h.Ctx, c Case) string {
 func init() {
 	h.Prop("builtin_regex_arguments", 12000, 300000, genArg, runArg)
 }
+
+// ---------------------------------------------------------------------------
+// relational operators do not associate: a chain of two of them without parentheses is not an expression
+
+type ChainCase struct {
+	Op1  string `json:"op1"`
+	Op2  string `json:"op2"`
+	Ctx  string `json:"ctx"`  // stmt | cond | pattern | arg | subscript | group
+	Form int    `json:"form"` // operand shapes
+}
+
+var relOps = []string{"<", "<=", "==", "!=", ">", ">="}
+
+func enumRelChains(thorough bool, yield func(ChainCase) bool) {
+	for _, ctx := range []string{"stmt", "cond", "pattern", "arg", "subscript", "group"} {
+		for _, a := range relOps {
+			for _, b := range relOps {
+				for form := 0; form < 3; form++ {
+					if !yield(ChainCase{a, b, ctx, form}) {
+						return
+					}
+				}
+			}
+		}
+	}
+}
+
+func runRelChain(x *h.Ctx, c ChainCase) string {
+	ops := [][3]string{{"a", "b", "c"}, {"$1", "x + 1", "\"s\" y"}, {"2", "1", "2"}}[c.Form]
+	wrapIn := func(e string) string {
+		switch c.Ctx {
+		case "stmt":
+			return "BEGIN { r = " + e + " }\n"
+		case "cond":
+			return "BEGIN { if (" + e + ") r = 1 }\n"
+		case "pattern":
+			return e + " { r = 1 }\n"
+		case "arg":
+			return "BEGIN { r = f(" + e + ") }\n" + awkgen.FuncF
+		case "subscript":
+			return "BEGIN { r = arr[" + e + "] }\n"
+		default:
+			return "BEGIN { r = (" + e + ") }\n"
+		}
+	}
+	chain := ops[0] + " " + c.Op1 + " " + ops[1] + " " + c.Op2 + " " + ops[2]
+	if _, _, err := awk.Parse(wrapIn(chain)); err == nil {
+		return fmt.Sprintf("the unparenthesised chain %q was accepted (context %s): relational operators do not associate\nsource: %s", chain, c.Ctx, wrapIn(chain))
+	}
+	// positive controls: either grouping, once spelled out, is an expression
+	for _, grouped := range []string{"(" + ops[0] + " " + c.Op1 + " " + ops[1] + ") " + c.Op2 + " " + ops[2], ops[0] + " " + c.Op1 + " (" + ops[1] + " " + c.Op2 + " " + ops[2] + ")"} {
+		if _, _, err := awk.Parse(wrapIn(grouped)); err != nil {
+			return fmt.Sprintf("the parenthesised comparison %q is rejected (context %s): %v", grouped, c.Ctx, err)
+		}
+	}
+	x.Nontrivial("")
+	return ""
+}
+
+func init() {
+	h.Enum("relational_chains_rejected", enumRelChains, runRelChain)
+}
